@@ -10,6 +10,7 @@ func init() {
 	// Local tier: CertTrace (no model sets: RUP chain by unit propagation in TLA+, models evaluated).
 	register(&core.Check{
 		ID:          "C06",
+		Designs:     cdclDesigns(true),
 		TraceModule: "APITrace",
 		Budget:      0,
 		Cases: func(env *core.Env) []core.Case {
